@@ -41,7 +41,37 @@ struct Cb {
     stage2: bool,
 }
 
+// Every body is captured the moment `mir_built` produces it: type-checking one function can force later MIR passes of another
+// (`tokio::spawn(async_fn(..))` needs the coroutine witnesses of `async_fn`, which steals its `mir_built`), so a body that is only
+// asked for afterwards may already be gone.  The provider override keeps a clone of each body for the extraction pass.
+type MirBuiltFn = for<'tcx> fn(TyCtxt<'tcx>, rustc_span::def_id::LocalDefId) -> &'tcx rustc_data_structures::steal::Steal<mir::Body<'tcx>>;
+static ORIG_MIR_BUILT: std::sync::OnceLock<MirBuiltFn> = std::sync::OnceLock::new();
+static SAVED_BODIES: std::sync::Mutex<Vec<(u32, usize)>> = std::sync::Mutex::new(Vec::new());
+
+fn saving_mir_built<'tcx>(tcx: TyCtxt<'tcx>, def: rustc_span::def_id::LocalDefId) -> &'tcx rustc_data_structures::steal::Steal<mir::Body<'tcx>> {
+    let orig = ORIG_MIR_BUILT.get().expect("original mir_built provider");
+    let steal = orig(tcx, def);
+    let copy: mir::Body<'tcx> = steal.borrow().clone();
+    let leaked: &'static mir::Body<'static> = unsafe { std::mem::transmute::<&mir::Body<'tcx>, &'static mir::Body<'static>>(Box::leak(Box::new(copy))) };
+    SAVED_BODIES.lock().unwrap().push((def.local_def_index.as_u32(), leaked as *const _ as usize));
+    steal
+}
+
+fn saved_body<'tcx>(def: rustc_span::def_id::LocalDefId) -> Option<&'tcx mir::Body<'tcx>> {
+    let g = SAVED_BODIES.lock().unwrap();
+    let idx = def.local_def_index.as_u32();
+    g.iter().rev().find(|(i, _)| *i == idx).map(|(_, p)| unsafe { std::mem::transmute::<&'static mir::Body<'static>, &'tcx mir::Body<'tcx>>(&*(*p as *const mir::Body<'static>)) })
+}
+
 impl rustc_driver::Callbacks for Cb {
+    fn config(&mut self, config: &mut rustc_interface::interface::Config) {
+        if !self.stage2 {
+            config.override_queries = Some(|_sess, providers| {
+                let _ = ORIG_MIR_BUILT.set(providers.queries.mir_built);
+                providers.queries.mir_built = saving_mir_built;
+            });
+        }
+    }
     fn after_expansion<'tcx>(&mut self, _c: &Compiler, tcx: TyCtxt<'tcx>) -> Compilation {
         if !self.stage2 {
             extract(tcx, false);
@@ -705,14 +735,18 @@ fn extract(tcx: TyCtxt<'_>, stage2: bool) {
     let owners: Vec<LocalDefId> = tcx.hir_body_owners().collect();
     for def in owners.iter().copied() {
         if !stage2 {
-            let steal = tcx.mir_built(def);
-            if steal.is_stolen() {
-                skipped.push(J::Str(dps(tcx, def.to_def_id())));
-                continue;
+            // make sure the body was built (our provider then holds a copy), then read the copy: it cannot be stolen
+            let _ = tcx.mir_built(def);
+            match saved_body(def) {
+                Some(body) => {
+                    let j = cx.body(def, body, 1);
+                    bodies.push(j);
+                }
+                None => {
+                    skipped.push(J::Str(dps(tcx, def.to_def_id())));
+                    continue;
+                }
             }
-            let body = steal.borrow();
-            let j = cx.body(def, &body, 1);
-            bodies.push(j);
         } else {
             let kind = tcx.def_kind(def.to_def_id());
             if !matches!(kind, DefKind::Fn | DefKind::AssocFn | DefKind::Closure) {
